@@ -246,19 +246,26 @@ ActChars  == {"a", " ", "#"}
 ActInputs(nb) == [lines : SeqsUpTo(SeqsUpTo(ActChars, 4), 1) \cup SeqsOf(SeqsUpTo(ActChars, 2), 2), cc : {<<"#">>}]
 
 Names    == {A, Bb, <<"a", "b">>, <<"b", "a">>, <<"b", "a", "b">>}
-CellsFor(w, last) == {<<>>, X} \cup (IF w >= 3 THEN {<<"x", " ", "y">>} ELSE {})
-                     \cup (IF last THEN {<<"x", " ", " ", "y", "z">>} ELSE {[i \in 1..w |-> "z"]})   \* fills the column
+CellSet(col, last, rich) ==
+    {<<>>, X} \cup (IF rich /\ col.w >= 3 THEN {<<"x", " ", "y">>} ELSE {})
+    \cup (IF last THEN (IF rich THEN {<<"x", " ", " ", "y", "z">>} ELSE {}) ELSE {[i \in 1..col.w |-> "z"]})   \* fills the column
 ColSeqs(m, pad) == {[i \in 1..m |-> [name |-> ns[i], w |-> Len(ns[i]) + pad]] : ns \in InjSeqs(Names, m, m)}
-RowsFor(cols, n) == SeqsUpTo({r \in [1..Len(cols) -> UNION {CellsFor(cols[i].w, i = Len(cols)) : i \in DOMAIN cols}] :
-                                 \A i \in DOMAIN cols : r[i] \in CellsFor(cols[i].w, i = Len(cols))}, n)
+RowSet(cols, rich) ==
+    {r \in [1..Len(cols) -> UNION {CellSet(cols[i], i = Len(cols), rich) : i \in DOMAIN cols}] :
+        \A i \in DOMAIN cols : r[i] \in CellSet(cols[i], i = Len(cols), rich)}
+RowSeqs(cols, nb) ==
+    IF Len(cols) = 3 THEN SeqsUpTo(RowSet(cols, Deep), 1) \cup (IF Deep THEN SeqsOf(RowSet(cols, FALSE), 2) ELSE {})
+    ELSE IF Len(cols) = 2 THEN SeqsUpTo(RowSet(cols, TRUE), 1) \cup UNION {SeqsOf(RowSet(cols, Deep), m) : m \in 2..nb}
+    ELSE SeqsUpTo(RowSet(cols, TRUE), nb)
 Edge(hi, junk, ti, foot) == [hi |-> hi, junk |-> junk, ti |-> ti, foot |-> foot]
 JunkLine == <<"#", " ", "j">>   FootLine == <<"-", "-", " ", "f">>   Ti == <<"-", "-">>
 Edges    == {Edge(FALSE, <<>>, <<>>, <<>>), Edge(TRUE, <<JunkLine, <<>>>>, Ti, <<FootLine, <<>>>>)}
+FixedFor(cols, nb) ==
+    {[cols |-> cols, rows |-> rows, margin |-> mg, hi |-> e.hi, junk |-> e.junk, ti |-> e.ti, foot |-> e.foot] :
+       rows \in RowSeqs(cols, nb), e \in (IF Len(cols) = 3 /\ ~Deep THEN {Edge(FALSE, <<>>, <<>>, <<>>)} ELSE Edges),
+       mg \in (IF Len(cols) = 2 THEN {0, 2} ELSE {0})}
 FixedInputs(nb) ==
-    UNION {{[cols |-> cols, rows |-> rows, margin |-> mg, hi |-> e.hi, junk |-> e.junk, ti |-> e.ti, foot |-> e.foot] :
-              rows \in RowsFor(cols, IF Len(cols) = 3 THEN nb - 1 ELSE nb), e \in Edges,
-              mg \in (IF Len(cols) = 2 THEN {0, 2} ELSE {0})} :
-           cols \in UNION {ColSeqs(m, pad) : m \in 1..3, pad \in (IF Deep THEN {1, 2, 3} ELSE {1, 2})}}
+    UNION {FixedFor(cols, nb) : cols \in UNION {ColSeqs(m, pad) : m \in 1..3, pad \in (IF Deep THEN {1, 2, 3} ELSE {1, 2})}}
 
 DNames   == {A, Bb, <<"a", " ", "b">>}
 DCells(d) == IF d = <<>> THEN {X, <<"x", "y">>} ELSE {<<>>, X, <<"x", " ", "y">>}
@@ -270,16 +277,16 @@ DelimFor(d, ns, nb) ==
 DelimInputs(nb) == UNION {UNION {DelimFor(d, ns, nb) : ns \in DNameSeqs(d)} : d \in {<<>>, <<",">>}}
 
 SKey2    == {<<"a", "-", "b">>, <<"a", " ", "b">>, <<"a", "_", "b">>}
-SVals    == {<<>>, X, <<"X">>, <<"x", "y">>}
+SVals    == {<<>>, X, <<"x", "y">>, <<"y", "X">>}
 SRow(k2) == {<<[k |-> A, v |-> v1], [k |-> k2, v |-> v2]>> : v1 \in SVals, v2 \in {X, Y}}
 Kw(key, m) == IF m = <<>> THEN key ELSE key \o Dunder \o m
 SKws     == {Kw(A, m) : m \in Matchers \cup {<<>>, <<"z">>}} \cup {Kw(<<"a", "_", "b">>, m) : m \in {<<>>, MStarts}}
             \cup {<<"c">>}
-STerms   == {[kw |-> kw, v |-> v] : kw \in SKws, v \in {X, <<"x", "y">>, <<"X">>, <<>>}}
+STerms   == {[kw |-> kw, v |-> v] : kw \in SKws, v \in {X, Y, <<"y", "x">>, <<>>}}
 SQueries == {<<>>} \cup {<<t>> : t \in STerms}
             \cup {<<t1, t2>> : t1 \in {t \in STerms : QKey(t.kw) = A /\ t.v = X}, t2 \in {t \in STerms : QKey(t.kw) # A /\ t.v = X}}
 SearchInputs(nb) ==
-    UNION {[rows : SeqsUpTo(SRow(k2), nb), q : SQueries, rkc : BOOLEAN] : k2 \in SKey2}
+    UNION {[rows : SeqsUpTo(SRow(k2), nb), q : SQueries, rkc : (IF k2[2] = "-" THEN BOOLEAN ELSE {FALSE})] : k2 \in SKey2}
 
 SecNs    == {<<"s">>, <<"S">>}
 OptNs    == {A, <<"A">>, Bb}
